@@ -65,7 +65,8 @@ def f(self):
 REF_PARSE = """
 def f(cls, scheme, text):
     def append_to_psgs(count, psg):
-        pass
+        for i in range(count):
+            psgs.append(psg)
     parts = cls._parser_re.split(text)
     csg = parts[0]
     next_psg = None
@@ -200,10 +201,10 @@ def run(chk, repo, tier):
     refcmp.check(chk, 'R19.3', GRP, gm['parse'], REF_PARSE, key='Group.parse',
                  what='parse splits on the delimiters and appends each '
                       'peripheral once or repeat-count times')
+    # (the nested append helper is followed by the summariser: it is part
+    # of parse's own normal form; compared separately when it exists)
     nested = [n for n in gm['parse'].body if isinstance(n, ast.FunctionDef)]
-    chk.ob('R19.3', len(nested) == 1, GRP, gm['parse'],
-           key='parse.helper', what='parse has its one append helper')
-    if len(nested) == 1:
+    if len(nested) == 1 and nested[0].name == 'append_to_psgs':
         refcmp.check(chk, 'R19.3', GRP, nested[0], REF_APPEND,
                      key='Group.parse.append_to_psgs',
                      what='the helper appends the peripheral `count` times '
